@@ -8,6 +8,7 @@ import HappyProofs.C11.Completeness
 import HappyProofs.C11.Safety
 import HappyProofs.C11.LeaderInit
 import HappyProofs.C11.ProgJudgeOk
+import HappyProofs.C11.ProgConvFair
 /-! C11 — property theorems: statements about the `Spec` predicates on the frames of model runs.
 
 General theorems live next to their invariants (quantified over the repair flags they need):
@@ -277,6 +278,15 @@ theorem stableConv_example :
     ∧ ((run Variant.repaired (init 3) (backoffPre ++ .submit 1 9 cmdB :: backoffTail)).nodes 1).commit = 2
     ∧ (outs Variant.repaired (run Variant.repaired (init 3) backoffPre) (.submit 1 9 cmdB :: backoffTail)).flatMap (·.ress)
         = [(9, 2, Res.val 3)] := by decide
+
+/-- non-vacuity of `conv_exists` / `backoff_bound`: in the back-off example the conversation-only schedule is exactly the
+    four deliveries (refusal, retry, acceptance, acknowledgement), well within the bound `2 · (next_index[2] + 2) = 8` -/
+theorem conv_exists_example :
+    convActs Variant.repaired 4 (run Variant.repaired (init 3) (backoffPre ++ [.submit 1 9 cmdB, .heartbeat 1])) 14
+      = [.deliver 14, .deliver 15, .deliver 16, .deliver 17]
+    ∧ convRun Variant.repaired 1 2 2 2 (run Variant.repaired (init 3) (backoffPre ++ [.submit 1 9 cmdB, .heartbeat 1]))
+        [.deliver 14, .deliver 15, .deliver 16, .deliver 17] = true
+    ∧ ((run Variant.repaired (init 3) (backoffPre ++ [.submit 1 9 cmdB, .heartbeat 1])).nodes 1).nextIndex.getD 2 1 = 2 := by decide
 
 /-! ### the judge's bounded-progress clause on the model's own transcript -/
 
